@@ -25,7 +25,7 @@ RULE = ("seeded simple graphs without isolated vertices: clustered graphs (union
         "add_edges_from; m0 in 2..6 (below, at, above the clique number); tie-break schedules uniform/first/last/"
         "sticky/mix; the iteration order of the library's hash sets (unspecified by the language) natural / reversed / rotated / "
         "shuffled by the scheduler; aborts at a chosen decision then a fresh object; non-trivial = graph has >= 2 edges; distinct = "
-        "distinct execution digests; thorough tier only: one clique of 1420-1500 vertices (a million edges) sharing an edge "
+        "distinct execution digests; run indexes 1000-2251 walk through EVERY graph with an edge on up to 7 vertices (graph atlas); thorough tier only: one clique of 1420-1500 vertices (a million edges) sharing an edge "
         "with a triangle, and one of 2050-2300 vertices (2.1-2.6 million edges), m0 = order / order+7 / 2^31, exact-cover oracle only")
 ASSUMPTIONS = ["oracle computes adjacency and maximal cliques itself (own Bron-Kerbosch), independent of networkx find_cliques",
                "a result must arrive within 50*|E|+100 tie-break decisions (each round removes at least one edge)"]
@@ -128,7 +128,19 @@ def generate(prng, tier, index):
                 "build": "add_edges_from", "set_order": "natural"}
     big = tier == "thorough"
     variant = "faults" if index % 5 == 4 else "clean"
-    sc = {"variant": variant, "edges": gen_graph(prng, big),
+    at = interesting.atlas_graph(index - interesting.ATLAS_FROM)
+    if at is not None:
+        # catalogue completeness: this block of run indexes walks through EVERY graph with an edge on up to 7 vertices
+        # (isolated vertices dropped: the cover is defined on edges), under scheduler-chosen labels, order, m0 and tie-breaks
+        nv, es0 = at
+        used = sorted({v for e in es0 for v in e})
+        lab = dict(zip(used, prng.sample(range(0, 40), len(used))))
+        es = [[lab[a], lab[b]] if prng.random() < 0.5 else [lab[b], lab[a]] for a, b in es0]
+        prng.shuffle(es)
+        graph = es
+    else:
+        graph = gen_graph(prng, big)
+    sc = {"variant": variant, "edges": graph,
           "m0": prng.choice((2, 2, 3, 3, 4, 5, 6)) if prng.random() > 0.04 else prng.choice((7, 8, 9, 16, 100, 2 ** 31)),
           "policy": prng.choice(({}, {"int": "min"}, {"int": "max"}, {"int": "sticky"}, {"int": "mix", "p": 0.5})),
           "build": prng.choice(("add_edge", "add_edges_from")),
